@@ -15,7 +15,7 @@ from spec import termmodel as T
 ASSUMPTIONS = [
     "orthogonality lemma (math): sum_p U_pq U_pr G = delta_qr G for a matrix U that is orthogonal on the space of p, when p is summed and occurs on no other factor (G free of p); likewise for the second position",
     "abstract view of Term/Obj (kernel K0): Term.objects / Obj.idx / Obj.exponent / Obj.base_and_exponent / Term.target, and Counter(term.idx)[x] = sum over objects of |exponent| * occurrences of x (Term._idx_counter semantics)",
-    "sympy Pow(b, 0) = 1, Pow(b, 1) = b; multiplying an Expr by factors builds their product",
+    "sympy Pow(b, 0) = 1, Pow(b, 1) = b; multiplying an Expr by factors builds their product (a single term for tensor factors; sums as remainder: bounded)",
     "the proof enumerates term shapes (1-2 unitary objects with exponents 1-2 or 3 with exponent 1, 0-1 remainder object of rank 2); index identities, target set and tensor values are symbolic",
 ]
 TRUSTED = ["orthogonality lemma (math)"]
@@ -43,6 +43,10 @@ def model_pow(ip, args, kwargs):
 
 C.STRUCT_INPLACE["ProdV"] = prod_inplace
 C.STRUCT_ATTR[("ProdV", "terms")] = lambda ip, p: (Struct("TermOfProd", prod=p),)
+# (remainder objects of the enumerated shapes are tensors: the product is a single term; remainders
+#  that are sums - where the product may fall apart into several terms - are covered by the bounded
+#  stand-in simplify_unitary.value)
+C.STRUCT_LEN["ProdV"] = lambda ip, p: 1
 
 
 @register
